@@ -548,8 +548,8 @@ func init() {
 			for sh := int64(0); sh <= 10; sh++ {
 				js = append(js, &Job{Pkg: pkgConfig, Func: "VerifC15Build", Args: []int64{sh}, Timeout: 5 * time.Minute})
 			}
-			for a := int64(0); a < 7; a++ {
-				for b := int64(0); b < 7; b++ {
+			for a := int64(0); a < 12; a++ { // 12 = len(c15LineShapes) in the harness and the replay
+				for b := int64(0); b < 12; b++ {
 					js = append(js, &Job{Pkg: pkgConfig, Func: "VerifC15EnvFile", Args: []int64{a, b}, Timeout: 5 * time.Minute})
 				}
 			}
